@@ -26,10 +26,10 @@ VNil      == [t |-> "nil"]
 VList(id) == [t |-> "list", id |-> id]
 VMap(id)  == [t |-> "map", id |-> id]
 VObj(id)  == [t |-> "obj", id |-> id]
-VFn(code, cap, this) == [t |-> "fn", code |-> code, cap |-> cap, this |-> this]
+VFn(code, cap, this, home) == [t |-> "fn", code |-> code, cap |-> cap, this |-> this, home |-> home]
 VBound(o, m) == [t |-> "bound", o |-> o, m |-> m]   \* built-in method bound to a receiver
 VModule(n) == [t |-> "module", name |-> n]
-VClass(decl, cap) == [t |-> "class", decl |-> decl, cap |-> cap]
+VClass(decl, cap, home) == [t |-> "class", decl |-> decl, cap |-> cap, home |-> home]
 
 MaxI == 2147483647
 MinI == -2147483647 - 1
@@ -135,8 +135,11 @@ Capture(f, env) == LET vis == Visible(env) fv == FVFn(f) \cap DOMAIN vis IN [n \
 
 -----------------------------------------------------------------------------
 (* state *)
+Lbl(k, m, n) == [k |-> k, m |-> m, n |-> n]      \* k: "M" module top level, "F" function value, "C" class member
 St0 == [cells |-> <<>>, lists |-> <<>>, maps |-> <<>>, objs |-> <<>>, out |-> <<>>,
-        status |-> "ok", retv |-> VNil, hasret |-> FALSE, fuel |-> 4000, stack |-> <<"module">>,
+        status |-> "ok", retv |-> VNil, hasret |-> FALSE, fuel |-> 4000,
+        stack |-> <<Lbl("M", "main", "")>>,   \* activation labels, innermost last: module / function / class member
+        curmod |-> "main",        \* module whose code is executing (lexical home of new function values)
         ftrace |-> <<>>, log |-> <<>>,
         mods |-> <<>>,        \* module sources of the program: Seq([name, body])
         modinit |-> <<>>,     \* names of modules whose top-level code has started, in order
@@ -301,7 +304,7 @@ Eval(e, env, st) ==
                         (IF i.v.v < 0 \/ i.v.v >= Len(o.v.s) THEN R(VNil, FailWith(i.st, "index"))
                          ELSE R(VStr(SubSeq(o.v.s, i.v.v + 1, i.v.v + 1)), i.st))
                 ELSE R(VNil, FailWith(i.st, "type"))
-      [] e.k = "fn" -> R(VFn(e, Capture(e, env), 0), st)
+      [] e.k = "fn" -> R(VFn(e, Capture(e, env), 0, st.curmod), st)
       [] e.k = "fld" ->
            LET o == Eval(e.o, env, st) IN
            IF ~IsOk(o.st) THEN o
@@ -359,13 +362,13 @@ CallValue(f, args, st) ==
     ELSE IF Len(args) # Len(f.code.ps) THEN R(VNil, FailWith(st, "type"))
     ELSE IF st.fuel <= 0 THEN R(VNil, FailWith(st, "fuel"))
     ELSE IF Len(st.stack) > 60 THEN R(VNil, FailWith(st, "fuel"))
-    ELSE LET s0 == NewCell([st EXCEPT !.fuel = @ - 1, !.stack = Append(@, f.code.id)], f)
+    ELSE LET s0 == NewCell([st EXCEPT !.fuel = @ - 1, !.stack = Append(@, Lbl("F", f.home, f.code.id)), !.curmod = f.home], f)
              p == BindParams(f.code.ps, args, 1, Bind(NoFrame, "self", LastCell(s0)), s0)
              env == [own |-> <<p.env>>, cap |-> f.cap]
              r == ExecBlock(f.code.b, 1, env, p.st).st IN
          IF Failed(r) THEN R(VNil, r)
          ELSE R(IF r.status = "return" THEN r.retv ELSE VNil,
-                [r EXCEPT !.status = "ok", !.retv = VNil, !.stack = st.stack])
+                [r EXCEPT !.status = "ok", !.retv = VNil, !.stack = st.stack, !.curmod = st.curmod])
 
 (* objects: a constructor call makes a fresh object whose fields are fresh cells; a method *)
 (* (or the constructor) runs in an activation where `self` is the object, parameters are   *)
@@ -375,12 +378,12 @@ RunMember(obj, member, args, label, st) ==
     IF Len(args) # Len(member.ps) THEN R(VNil, FailWith(st, "type"))
     ELSE IF st.fuel <= 0 \/ Len(st.stack) > 60 THEN R(VNil, FailWith(st, "fuel"))
     ELSE LET cls == st.objs[obj.id].class
-             s0 == NewCell([st EXCEPT !.fuel = @ - 1, !.stack = Append(@, label)], obj)
+             s0 == NewCell([st EXCEPT !.fuel = @ - 1, !.stack = Append(@, Lbl("C", cls.home, label)), !.curmod = cls.home], obj)
              p == BindParams(member.ps, args, 1, Bind(NoFrame, "self", LastCell(s0)), s0)
              env == [own |-> <<p.env>>, cap |-> cls.cap]
              r == ExecBlock(member.b, 1, env, p.st).st IN
          IF Failed(r) THEN R(VNil, r)
-         ELSE R(IF r.status = "return" THEN r.retv ELSE VNil, [r EXCEPT !.status = "ok", !.retv = VNil, !.stack = st.stack])
+         ELSE R(IF r.status = "return" THEN r.retv ELSE VNil, [r EXCEPT !.status = "ok", !.retv = VNil, !.stack = st.stack, !.curmod = st.curmod])
 RECURSIVE FieldCells(_, _, _, _)
 FieldCells(fs, i, st, acc) == IF i > Len(fs) THEN ER(acc, st)
                               ELSE LET s2 == NewCell(st, VNil) IN FieldCells(fs, i + 1, s2, Bind(acc, fs[i].n, LastCell(s2)))
@@ -520,16 +523,14 @@ Exec(s, env, st) ==
                  IF c = 0 THEN ER(env, FailWith(r.st, "type")) ELSE ER(env, SetCell(r.st, c, r.v)))
            ELSE LET w == Store(r.env, r.st, s.n, r.v) IN
                 IF s.export /\ Len(w.st.modinit) > 0
-                THEN LET me == w.st.stack[Len(w.st.stack)]        \* "module:<name>" label of the running module
-                         nm == SubSeq(me, 8, Len(me)) IN
-                     ER(w.env, [w.st EXCEPT !.modexp[nm] = Bind(@, s.n, LookupOwn(w.env, s.n))])
+                THEN ER(w.env, [w.st EXCEPT !.modexp[w.st.curmod] = Bind(@, s.n, LookupOwn(w.env, s.n))])
                 ELSE w
       [] s.k = "import" -> ImportStmt(s, env, st)
       [] s.k = "class" ->
            LET vis == Visible(env)
                fv == ClassFV(s) \cap DOMAIN vis
                c == Len(st.cells) + 1
-               s2 == NewCell(st, VClass(s, [n \in fv \cup {s.n} |-> IF n = s.n THEN c ELSE vis[n]])) IN
+               s2 == NewCell(st, VClass(s, [n \in fv \cup {s.n} |-> IF n = s.n THEN c ELSE vis[n]], st.curmod)) IN
            ER(BindTop(env, s.n, LastCell(s2)), s2)
       [] s.k = "print" ->
            LET r == EvalB(s.e, env, st) IN
@@ -635,9 +636,9 @@ ImportStmt(s, env, st) ==
     ELSE LET s1 == IF \E j \in 1..Len(st.modinit) : st.modinit[j] = nm THEN st
                    ELSE IF st.fuel <= 0 THEN FailWith(st, "fuel")
                    ELSE LET s0 == [st EXCEPT !.modinit = Append(@, nm), !.modexp = Bind2(@, nm),
-                                             !.stack = Append(@, "module:" \o nm), !.fuel = @ - 1]
+                                             !.stack = Append(@, Lbl("M", nm, "")), !.curmod = nm, !.fuel = @ - 1]
                             r == ExecBlock(st.mods[k].body, 1, Env0, s0).st IN
-                        IF Failed(r) THEN r ELSE [r EXCEPT !.status = "ok", !.stack = st.stack] IN
+                        IF Failed(r) THEN r ELSE [r EXCEPT !.status = "ok", !.stack = st.stack, !.curmod = st.curmod] IN
          IF ~IsOk(s1) THEN ER(env, s1)
          ELSE IF s.form = "mod" THEN
               LET s2 == NewCell(s1, VModule(nm)) IN ER(BindTop(env, nm, LastCell(s2)), s2)
@@ -647,7 +648,7 @@ ImportStmt(s, env, st) ==
 RunProject(p) ==
     LET e == p.mods[p.entry]
         s0 == [St0 EXCEPT !.mods = p.mods, !.modinit = <<e.name>>, !.modexp = Bind2(NoFrame2, e.name),
-                          !.stack = <<"module:" \o e.name>>]
+                          !.stack = <<Lbl("M", e.name, "")>>, !.curmod = e.name]
         r == ExecBlock(e.body, 1, Env0, s0).st IN
     IF r.status \in {"return", "break", "continue"} THEN [r EXCEPT !.status = "ok"] ELSE r
 
